@@ -220,7 +220,9 @@ def run(rep, index):
     rep.floor("documented module paths", 20)
     rep.floor("spec trees", 30)
     rep.assumptions += ["valid spec trees have a protocol.xml in each of the seven documented directories and PacketFamily/PacketAction in net",
-                        "type names are identifiers that collide with no module, package or other attribute name (the property's non-degenerate specs)",
+                        "besides fresh type names (two families, sorting before/after packet_family) the trees cover one struct named like each "
+                        "documented package or module (Data, Encrypt, Packet, Protocol, Map, Net, Pub, Client, Server) in six directories; other "
+                        "collisions (with class or function names of the library) are not enumerated",
                         "generated modules consist of their import lines and one class (checked against the emitter by the C18 analysis)"]
 
 
